@@ -199,6 +199,8 @@ type Res struct {
 	s *Sess
 }
 
+func langFor(code string) (lang.Language, error) { return lang.LanguageFromCode(code) }
+
 func ctxLang(ctx context.Context) string {
 	l, ok := lang.LanguageFromContext(ctx)
 	if !ok {
